@@ -13,11 +13,14 @@ _ids = itertools.count()
 
 def gen_case(rng):
     return {'kind': 'mergediv', 'divide_at': rng.choice([1, 2]), 'ticks': rng.choice([4, 5]),
-            'gain': rng.choice([1, 3, 10]), 'second_generation': rng.random() < 0.5}
+            'gain': rng.choice([1, 3, 10]), 'second_generation': rng.random() < 0.5,
+            'explicit': rng.random() < 0.5}
 
 
 def corpus():
-    return [{'kind': 'mergediv', 'divide_at': 1, 'ticks': 4, 'gain': 3, 'second_generation': True}]
+    return [{'kind': 'mergediv', 'divide_at': 1, 'ticks': 4, 'gain': 3, 'second_generation': True},
+            # F45: an explicit initial state for the working daughter only
+            {'kind': 'mergediv', 'divide_at': 1, 'ticks': 3, 'gain': 1, 'second_generation': False, 'explicit': True}]
 
 
 def run_impl(case):
@@ -51,6 +54,9 @@ def run_impl(case):
             for i, k in enumerate((mother + '0', mother + '1')):
                 ds.append({'key': k, 'processes': {'work': Work({'active': i == 0, 'gain': case['gain'], 'me': k})},
                            'topology': {'work': {'vars': ('vars',)}}})
+                if case.get('explicit') and i == 0:
+                    # only this daughter is given a starting value of her own
+                    ds[-1]['initial_state'] = {'vars': {'inventory': {'atp': {'n': 77}}}}
             return {'agents': {'_divide': {'mother': mother, 'daughters': ds}}}
 
         def next_update(self, timestep, states):
